@@ -342,6 +342,12 @@ pub fn world_b_handshake(property: &str, scenario: &str, seed: u64, run: u64, th
                     m.insert(ord, Fate::dropped());
                 }
                 plan.params.insert(format!("synack_outage_ep{}", c), k as f64);
+                // during such an outage the server application may drop the pending handshake:
+                // the client, still waiting, starts it again with its next SYN, and the
+                // connection that results must last
+                if k <= 8 && r.chance(0.5) {
+                    plan.params.insert(format!("drop_pending_ep{}", c), k as f64);
+                }
             }
         }
     }
@@ -349,6 +355,12 @@ pub fn world_b_handshake(property: &str, scenario: &str, seed: u64, run: u64, th
     for (i, &c) in topo.clients.iter().enumerate() {
         let t_create = r.range(0, 3_000_000);
         plan.push(t_create, 1, Op::Create { ep: c });
+        let k = plan.param(&format!("drop_pending_ep{}", c), 0.0) as u64;
+        if k > 0 {
+            // before the first SYN-ACK that gets through has been sent
+            let t = t_create + r.range(500_000, 2_000_000 * k - 500_000);
+            plan.push(t, r.u32() | 1, Op::ServerDrop { ep: 0, to: c });
+        }
         let cad = Cadence { period_us: r.range(5_000, 100_000), jitter: 0.3, stall_p: 0.0, stall_max_us: 0, flush_after_step_p: 0.2 };
         let mut t_end = horizon;
         // crash and restart on the same address (nothing survives)
